@@ -67,3 +67,8 @@ pub fn poke(dbs: &Arc<Databases>, db: &str, key: &str, value: &String, version: 
     d.set_value_version(&String::from(key), value, version, state, vaddr, kaddr, 7);
 }
 pub fn state_of(i: usize) -> ValueStatus { match i { 0 => ValueStatus::New, 1 => ValueStatus::Ok, 2 => ValueStatus::Updated, _ => ValueStatus::Deleted } }
+
+/// partial-order reduction for thread harnesses: session locks are private to their client (checked), the database
+/// table is only read during a concurrent phase (checked), the metrics averages are observed by no property (unchecked)
+pub fn quiet_client(c: &Client) { c.selected_db.name.set_quiet(1); c.selected_db.user_name.set_quiet(1); c.cluster_member.set_quiet(1); }
+pub fn quiet_node(dbs: &Arc<Databases>) { dbs.map.set_quiet(1); dbs.query_ema.set_quiet(2); dbs.replication_ema.set_quiet(2); }
